@@ -181,20 +181,29 @@ def model_batch(requests, timeout=600):
     return out
 
 
-def model_batch_parallel(requests, chunks=14, timeout=900):
-    """Same as model_batch but spread over several model processes."""
-    if len(requests) <= 4:
-        return model_batch(requests, timeout)
+def model_one(request, timeout=30):
+    """one request in its own model process with a hard time-out (answer: error 'oracle-timeout')"""
+    try:
+        p = subprocess.run([MODEL_EXE], input=json.dumps(request) + "\n", capture_output=True, text=True,
+                           timeout=timeout)
+    except subprocess.TimeoutExpired:
+        return {"ok": False, "error": "oracle-timeout"}
+    for l in p.stdout.split("\n"):
+        if l.strip():
+            try:
+                return json.loads(l)
+            except Exception:
+                break
+    return {"ok": False, "error": "model produced no answer " + p.stderr[-200:]}
+
+
+def model_batch_parallel(requests, chunks=14, timeout=30):
+    """every request in its own process (5 ms start-up) with a per-request time-out, 14 at a time"""
+    if not requests:
+        return []
     from concurrent.futures import ThreadPoolExecutor
-    k = min(chunks, len(requests))
-    parts = [requests[i::k] for i in range(k)]
-    with ThreadPoolExecutor(max_workers=k) as ex:
-        res = list(ex.map(lambda r: model_batch(r, timeout), parts))
-    out = [None] * len(requests)
-    for i, part in enumerate(res):
-        for j, r in enumerate(part):
-            out[i + j * k] = r
-    return out
+    with ThreadPoolExecutor(max_workers=chunks) as ex:
+        return list(ex.map(lambda r: model_one(r, timeout), requests))
 
 
 # ------------------------------------------------------------------------------------------------
